@@ -167,7 +167,8 @@ struct Peer
     if (e == SSL_ERROR_WANT_WRITE) { wantPollOut = true; return 0; }
     if (e == SSL_ERROR_WANT_READ) return 0;
     if (e == SSL_ERROR_SYSCALL || e == SSL_ERROR_ZERO_RETURN) { errText = "tls write: connection gone"; ERR_clear_error(); return -1; }
-    errText = "SSL_write: " + sslErrors(); protoError = true; protoPhase = "data";
+    // a write-side failure says nothing about the bytes the engine produced (local misuse or an alert): harness-level
+    errText = "SSL_write: " + sslErrors();
     return -2;
   }
   bool handshake()
@@ -235,6 +236,7 @@ struct Peer
     uint32_t rchunk = chunkSizes[rng.below(7)];
     int pauseLeft = P.pauseBudget;
     bool writeShut = false;
+    size_t pendingW = 0;
     for (;;)
     {
       int c = cmd.load();
@@ -282,9 +284,11 @@ struct Peer
       if (wantW && now >= nextWriteAt)
       {
         uint64_t left = revLeft > 0 ? revLeft : tailLeft;
-        size_t n = size_t(std::min<uint64_t>(left, 1 + rng.below(rng.chance(0.3) ? 64 : 20000)));
+        // a write that would block must be retried with the same bytes and length (TLS record already started)
+        size_t n = pendingW ? pendingW : size_t(std::min<uint64_t>(left, 1 + rng.below(rng.chance(0.3) ? 64 : 20000)));
         fillRun(wb.data(), rk, wOff, n);
         int w = ioWrite(wb.data(), n);
+        pendingW = w == 0 ? n : 0;
         if (w > 0)
         {
           wOff += uint64_t(w); wrote += uint64_t(w); progressed = true; wantPollOut = false;
